@@ -476,7 +476,22 @@ fn run_case_inner(cx: &mut Ctx) {
             "cfg" => {
                 let Some(cfg) = Cfg::parse(&t) else { continue };
                 match World::new(cx.rt, cfg) {
-                    Ok(w) => world = Some(w),
+                    Ok(mut w) => {
+                        if cx.model.is_some() {
+                            // the model's creation state (`createS` / `createD`) against `HnswIndex::new` + the creation flush
+                            let imp = format!("{} {}", real_state(&mut w, cx.rt, true), durable_string(&w.durable, w.cfg.dim));
+                            let ml = w.index.metadata().config.max_layers;
+                            let ans = cx.model.as_mut().unwrap().ask(&format!("create {ml}"));
+                            if cx.report {
+                                cx.rep.model_compared += 1;
+                            }
+                            if ans != imp {
+                                cx.disagree("create", &ans, &imp, None);
+                            }
+                            w.dumped = false;
+                        }
+                        world = Some(w)
+                    }
                     Err(e) => {
                         cx.oracle_fail("flush-error", "flush of the empty index failed", "ok", &e, None);
                         return;
@@ -680,6 +695,8 @@ fn step(cx: &mut Ctx, w: &mut World, op: &str, t: &[&str]) {
                 Ok(ws) => {
                     w.dumped = false;
                     compare_writes(cx, sent, &ws);
+                    w.invalidate();
+                    compare_after_flush(cx, sent, w);
                     check_write_order(cx, &ws);
                     // after a complete, quiescent flush the durable objects ARE the in-memory index
                     let bad = crate::window::stale_blobs(w, cx.rt);
@@ -697,6 +714,8 @@ fn step(cx: &mut Ctx, w: &mut World, op: &str, t: &[&str]) {
                 Ok(ws) => {
                     w.dumped = false;
                     compare_writes(cx, sent, &ws);
+                    w.invalidate();
+                    compare_after_flush(cx, sent, w);
                     check_write_order(cx, &ws)
                 }
                 Err(e) => {
@@ -930,6 +949,22 @@ fn pre_flush(cx: &mut Ctx, w: &mut World) -> bool {
     }
 }
 
+/// the model's `afterFlush` (in-memory effect of flush + purge) against the real index after the flush
+fn compare_after_flush(cx: &mut Ctx, sent: bool, w: &mut World) {
+    if !sent {
+        return;
+    }
+    let imp = real_state(w, cx.rt, true);
+    let ans = cx.model.as_mut().unwrap().ask("afterflush");
+    if cx.report {
+        cx.rep.model_compared += 1;
+    }
+    if ans != imp {
+        cx.disagree("after-flush", &ans, &imp, None);
+    }
+    w.dumped = false;
+}
+
 fn compare_writes(cx: &mut Ctx, sent: bool, ws: &[W]) {
     if !sent {
         return;
@@ -1131,6 +1166,16 @@ fn check_load_model(cx: &mut Ctx, d: &Durable, w: Option<&mut World>) {
     }
 }
 
+/// `2·x` as integers when every component is a multiple of 1/2 of modest size (then products and sums are exact in f32)
+fn grid_ints(v: &[f32]) -> Option<Vec<i64>> {
+    v.iter()
+        .map(|x| {
+            let y = x * 2.0;
+            if y.fract() == 0.0 && y.abs() <= 64.0 { Some(y as i64) } else { None }
+        })
+        .collect()
+}
+
 /// the soundness part of the property for one answer, against the harness's own copy of the vectors
 pub(crate) fn soundness(metric: char, k: usize, q: &[f32], truth: &BTreeMap<u64, Vec<f32>>, r: &[(u64, f32)]) -> Vec<String> {
     let mut bad: Vec<String> = vec![];
@@ -1296,6 +1341,38 @@ fn query(cx: &mut Ctx, w: &mut World, op: &str, t: &[&str]) {
                 cx.rep.hit("skip:nan-distance");
             }
             return;
+        }
+        // exact-metric model `closer` against the real kernels, where the inputs make f32 arithmetic exact
+        // (all components multiples of 1/2, small): for e / m / i the key order must BE the exact order;
+        // for cosine (a quotient of square roots) a strict exact order must not be contradicted beyond 1e-5
+        if valid && let Some(qi) = grid_ints(&qf32) {
+            let nodes: Vec<(&u64, &GNode)> = g.iter().collect();
+            let mut done = 0;
+            for p in nodes.windows(2) {
+                if done >= 4 {
+                    break;
+                }
+                let (va, vb): (Vec<f32>, Vec<f32>) = (p[0].1.vec.iter().map(|x| x.to_f32()).collect(), p[1].1.vec.iter().map(|x| x.to_f32()).collect());
+                let (Some(ai), Some(bi)) = (grid_ints(&va), grid_ints(&vb)) else { continue };
+                let (Ok(da), Ok(db)) = (metric.compute_mixed(&qf32, &p[0].1.vec), metric.compute_mixed(&qf32, &p[1].1.vec)) else { continue };
+                done += 1;
+                let ints = |v: &[i64]| v.iter().map(|x| x.to_string()).collect::<Vec<_>>().join(",");
+                let m = cx.model.as_mut().unwrap();
+                let ab = m.ask(&format!("closer {} {} {} {}", w.cfg.metric, ints(&qi), ints(&ai), ints(&bi)));
+                let ba = m.ask(&format!("closer {} {} {} {}", w.cfg.metric, ints(&qi), ints(&bi), ints(&ai)));
+                if cx.report {
+                    cx.rep.model_compared += 1;
+                    cx.rep.hit(&format!("model:closer-{}", w.cfg.metric));
+                }
+                let bad = if w.cfg.metric == 'c' {
+                    (ab == "true" && ba == "false" && da > db + 1e-5) || (ba == "true" && ab == "false" && db > da + 1e-5)
+                } else {
+                    (ab == "true") != (da <= db) || (ba == "true") != (db <= da)
+                };
+                if bad {
+                    cx.disagree("metric-order", &format!("closer(a,b)={ab} closer(b,a)={ba}"), &format!("d(q,a)={da} d(q,b)={db} q={qi:?} a={ai:?} b={bi:?}"), None);
+                }
+            }
         }
         let m = cx.model.as_mut().unwrap();
         if !w.dumped {
